@@ -33,6 +33,7 @@ AXIOM_WHITELIST = {
     # declared by Coq's standard library (Reals are classical) -- never by this development
     "ClassicalDedekindReals.sig_forall_dec",
     "ClassicalDedekindReals.sig_not_dec",
+    "ClassicalDedekindReals.sig_not_dec",
     "FunctionalExtensionality.functional_extensionality_dep",
     "Classical_Prop.classic",
 }
@@ -248,6 +249,8 @@ class Report:
         self.prop, self.tier, self.level = prop, tier, level
         self.seed = seed_from_env()
         self.t0 = time.time()
+        for f in glob.glob(os.path.join(REPLAY, prop + "_*.json")):
+            os.remove(f)
         self.violations = []      # dict(key, what, replay_obj, found_input:bool)
         self.known_hit = []
         self.obligations = []     # (name, ok, axioms)
